@@ -13,6 +13,14 @@ B  the TLC state graph (every call and every failure point out of every state wi
 C  random histories (4 identities, up to 6 keys each, ~40 calls, failures, close / reopen) recorded
    from the real code and judged by TLC (KeychainTrace), invariants evaluated on every state.
 
+Entry points / argument shapes exercised besides the plain calls (parameters of the op record, see the
+header of Keychain.tla): new_key with an explicit key_id (fresh, of a file left by a failed new_key, of a
+listed key); Identity.new_key / Identity.del_key / Key.del_cert; deletes by a second KeychainSqlite3 on
+the same store; Identity / Key / Certificate objects as signing arguments; storage failures raised by the
+tpm call itself or by the file operation inside TpmFile (open / os.remove); the objects returned by
+new_identity / touch_identity / new_key; Certificate.key; the key pair (private-key file vs listed public
+key) after every new_key; signers kept by the caller.
+
 The graph of B and the constants of C model the library *as detected* for the two deviations that
 change transitions (signer cache keyed by locator only; del_key removing the private key last):
 two scripted probes decide the flags, so the replay is never cut short by a known defect; the
@@ -316,9 +324,7 @@ def replay_steps(ids, steps):
             nf = len(run.findings)
             res, proj = run.step(act, o, n, s.get('m', 'call'))
             out += [(sg, w, j) for sg, w in run.findings[nf:]]
-            if proj['open'] and 'txn' in s and bool(run.store.kc.conn.in_transaction) != s['txn']:
-                raise tlc.MachineryError('transaction state of the connection (%s) differs from the model after %s'
-                                         % (run.store.kc.conn.in_transaction, ostr(o) if o else act))
+            nout = len(out) - (len(run.findings) - nf)
             stop = False
             if act == 'Fail':
                 if not res['fired']:
@@ -356,6 +362,23 @@ def replay_steps(ids, steps):
                             'after %s: %s is %s, specification %s' % (ostr(o) if o else act, d[0], d[1], d[2]), j))
                 stop = True
             if stop:
+                return out, False
+            if len(out) == nout and proj['open'] and 'txn' in s and bool(run.store.kc.conn.in_transaction) != s['txn']:
+                # Nothing observable differs yet, but the connection holds a transaction where the model has none
+                # (or the reverse).  If the model says everything is committed, closing and reopening must
+                # show the same store: check that now; either way the rest of the path is not replayed.
+                if not s['txn']:
+                    run.store.close()
+                    run.store.open()
+                    proj2, _ = run.store.projection()
+                    d = kckit.compare(proj2, s['proj'])
+                    if d:
+                        out.append((PFX + '%s/lost-on-reopen/%s' % (o['op'] if o else act, d[0]),
+                                    '%s returned, but its effect was left in an open transaction: after close and reopen '
+                                    '%s is %s, specification %s' % (ostr(o) if o else act, d[0], d[1], d[2]), j))
+                        return out, False
+                out.append(('#txn', 'transaction state %s differs from the model after %s'
+                            % (run.store.kc.conn.in_transaction, ostr(o) if o else act), j))
                 return out, False
         nf = len(run.findings)
         run.finish()
@@ -395,9 +418,12 @@ def record(rng, ids, maxkeys, length):
     try:
         proj, _ = run.store.projection()
         last = None
+        hot, queue = [], []       # keys a signer was obtained for; calls to make next (directed sequences)
         while len(ev) < length:
             if not proj['open']:
                 act, o, n, m = 'Reopen', None, None, 'call'
+            elif queue:
+                act, o, n, m = 'Step', queue.pop(0), None, 'call'
             else:
                 keys, certs = proj['keys'], proj['certs']
                 known_keys = sorted(run.store.key)
@@ -446,6 +472,17 @@ def record(rng, ids, maxkeys, length):
                     if c in certs or c[0] not in keys:
                         for loc in ('cert', 'custom'):
                             cand.append((2 if c in certs else 1, op('GetSigner', c=c, by='cert', loc=loc)))
+                hot = [k for k in hot if k in keys]
+                forced = None
+                if ext_ok and hot and rng.random() < 0.06:
+                    # a second instance deletes a key this instance has handed out signers for; ask again
+                    k = rng.choice(hot)
+                    forced = op('DelKey', k=k, loc='ext')
+                    queue = [op('GetSigner', k=k, by='key', loc='custom'), op('GetSigner', k=k, by='key', loc='cert'),
+                             op('GetSigner', i=k[0], by='identity', loc='cert')]
+                    if (k, 1) in run.store.cert:
+                        queue.append(op('GetSigner', c=(k, 1), by='cert', loc='cert'))
+                    last = None
                 cand.append((6, op('GetSigner', by='default', loc='cert')))
                 cand.append((3, op('Close')))
                 if last is not None and last[0] == 'Fail' and rng.random() < 0.5:
@@ -463,6 +500,8 @@ def record(rng, ids, maxkeys, length):
                         o = dict(o, k=NOKEY)
                 else:
                     o = None
+                if o is None and forced is not None:
+                    o = forced
                 if o is None:
                     tot = sum(w for w, _ in cand)
                     x = rng.random() * tot
@@ -480,6 +519,8 @@ def record(rng, ids, maxkeys, length):
                 if o['t'] == 'rsa':
                     nrsa += 1
             res, proj = run.step(act, o, n, m if act == 'Fail' else 'call')
+            if o is not None and o['op'] == 'GetSigner' and res['out'] == 'ok' and res.get('signed_by'):
+                hot.append(res['signed_by'][0])
             if act == 'Fail' and not res['fired']:
                 act, n = 'Step', None
                 run.last_fail = None
@@ -684,6 +725,7 @@ def run(ctx):
         results = replay_many(all_steps, ctx.pick(6, 12))
         unfinished = 0
         fs = Findings()
+        txn_notes = []
         for steps, (nst, done, fnd) in zip(all_steps, results):
             ctx.traces += 1
             ctx.evaluations += len(steps)
@@ -693,9 +735,15 @@ def run(ctx):
             ctx.sample({'kind': 'B-path', 'actions': acts}, limit=3)
             unfinished += 0 if done else 1
             for sig, what, j in fnd:
+                if sig == '#txn':
+                    txn_notes.append('%s: %s' % (' ; '.join(acts[:j + 1]), what))
+                    continue
                 fs.add(sig, 'history %s: %s' % (' ; '.join(acts[:j + 1]), what),
                        {'kind': 'path', 'ids': ['A', 'B'], 'steps': steps[:j + 1], 'sig': sig}, j)
         fs.flush(ctx)
+        if txn_notes:
+            ctx.note('B: %d path(s) stopped because the connection and the model disagree on an open transaction '
+                     '(nothing observable differed, also not after close + reopen), e.g. %s' % (len(txn_notes), txn_notes[0]))
         if unfinished:
             ctx.note('B: %d path(s) cut short at a mismatch' % unfinished)
 
